@@ -564,9 +564,11 @@ REFUTE_HIST = {"anchor": 0, "mode": "int",
 ANCHOR_HIST = {"anchor": 0, "mode": "int",
                "events": [["D", [[1, 0, 1], [2, 1, 1], [3, 2, 1]]], ["L", 2], ["D", [[2, 1, 1]]], ["D", [[4, 3, 1]]]]}
 TIE_HIST = {"anchor": 0, "mode": "int",
-            "events": [["D", [[1, 0, 1], [2, 1, 1]]], ["D", [[3, 2, 1]]], ["D", [[11, 2, 1]]], ["L", 1],
-                       ["D", [[5, 3, 1], [13, 11, 1]]]]}
-TIE_PRIOS = [[], [], [], [11, 3], []]
+            "events": [["D", [[1, 0, 1]]], ["D", [[3, 1, 1]]], ["D", [[11, 1, 1]]], ["L", 1]]}
+TIE_SPY_HIST = {"anchor": 0, "mode": "int",
+                "events": [["D", [[1, 0, 1], [2, 1, 1]]], ["D", [[3, 2, 1]]], ["D", [[11, 2, 1]]], ["L", 1],
+                           ["D", [[5, 3, 1], [13, 11, 1]]]]}
+TIE_SPY_PRIOS = [[], [], [], [11, 3], []]
 
 
 def corpus_cases():
@@ -574,7 +576,8 @@ def corpus_cases():
     yield case_spy(REFUTE_HIST, [[], [8]])
     yield case_spy(REFUTE_HIST, [[], [9]])
     yield case_plain(ANCHOR_HIST)
-    yield case_spy(TIE_HIST, TIE_PRIOS)
+    yield case_plain(TIE_HIST)
+    yield case_spy(TIE_SPY_HIST, TIE_SPY_PRIOS)
     for h in (REFUTE_HIST, ANCHOR_HIST, TIE_HIST):
         yield case_excluded(h)
 
@@ -677,7 +680,7 @@ def replay_input(check, inp):
 KNOWN_REPLAYS = {
     ID_ORPHAN: lambda: check_history(REFUTE_HIST),
     ID_ANCHOR: lambda: check_history(ANCHOR_HIST),
-    ID_TIE: lambda: check_history(TIE_HIST, TIE_PRIOS),
+    ID_TIE: lambda: check_history(TIE_HIST),
 }
 
 
